@@ -251,7 +251,20 @@ CLAIMS.update({
         'technique': 'Lean 4 proof (case characterisation of write; invariants of parked calls and of the gate by induction over op lists) + model/implementation differential replay of a direct-driven real Association + executable predicates + e2e exploration',
     },
     'C06': {
-        'text': 'API-visible half (DCEP, retransmission policies) proved; receive half (at most once, intact, subsequence) by exploration + Reasm (+ the wire theorems of Props/C06wire.lean). '
+        'text': 'API-visible half (DCEP, retransmission policies) proved; receive half: at the reassembly queue proved for UNORDERED messages (Props/C06reasm.lean, below) next to the ordered theorems of C01 / C07; '
+                'association / system level (at most once, intact, subsequence across sender + network + receiver for unordered and partially reliable streams) by exploration + Reasm (+ the wire theorems of Props/C06wire.lean). '
+                'RECEIVE HALF, UNORDERED, REASSEMBLY QUEUE (Props/C06reasm.lean, on the L0 model of reassemblyQueue tied by the reasm correspondence run): universe = the unordered messages of one stream, message k cut into '
+                'fragments, DATA: TSN t0+base(k)+i (consecutive inside a message, disjoint ranges in message order, other traffic allowed in between, any t0 incl. the 2^32 wrap), U flag, B first, E last, PPI on every fragment; '
+                'I-DATA: MID k, FSN i, arbitrary TSNs. For ANY run of pushes (any order, each fragment at most once - the TSN filter of C05 -, loss allowed, any entry limit) and reads of any buffer size: '
+                'C06_reasm_unordered_data / C06_reasm_unordered_idata: the successful reads are D.map out for a DUPLICATE-FREE list D of message indices (each message at most once, with its PPI and its whole payload, '
+                'never a fragment, never a splice; order unconstrained), only messages all of whose fragments were pushed, and every message whose fragments were all taken without a limit error has been read or waits complete '
+                'in unordered / unorderedMID; C06_reasm_unordered_*_exactly_once: all fragments taken + queue drained => the reads are a permutation of the writes (reliable unordered streams: exactly once); '
+                'C06_reasm_unordered_run_is_message: what findCompleteUnorderedChunkSet cuts out of ANY slice is a B...E run with consecutive TSNs and no E before the end (never panics), and such a run of universe fragments is '
+                'exactly all fragments of one message (isComplete alone would accept the splice B E B E of two TSN-adjacent messages: example); C06_reasm_class_frames + C06_reasm_mixed_classes: ordered and unordered DATA '
+                'messages on the same stream - pushes of one class leave the containers / cursors of the other untouched, read serves a waiting unordered message first, and on every admissible mixed run the reads served from '
+                'the ordered container are a prefix of the ordered writes while the reads served from the unordered list satisfy the unordered statement. Hypotheses: the unordered universe spans at most 2^31 TSNs (DATA) / holds '
+                'at most 2^31 messages (I-DATA) - there is no cursor a sliding window could be anchored at; ordered part: the 2^15 window of C01. NOT proved: forward-TSN purges of unordered fragments inside a run (the handlers are '
+                'characterised exactly in C07_reasm_purge_exact_*), mixed classes under I-DATA, the composition with receiver / network for unordered streams. '
                 'Lean theorems (Props/C06.lean): C06_dcep_reliable_ordered (packetize clears the U flag for PPI 50 on every fragment whatever the stream setting; '
                 'checkPartialReliabilityStatus never marks a DCEP chunk; an accepted DCEP write queues ordered chunks only); C06_abandon_decision (Sender.checkPR = the decision written with '
                 'the regenerated conditions: nSent >= value, elapsed since the FIRST transmission >= value, DCEP / not-negotiated / unknown-stream exempt; abandoned() = marked AND all fragments '
